@@ -653,7 +653,7 @@ def signature_finding(ctx, symptom, det):
 
 def run(ctx):
     t0 = time.time()
-    ctx.lean_stage(["ext_flags"], ["Verif.Props.C20"])
+    ctx.lean_stage(["ext_flags"], ["Verif.Props.C20", "Verif.Props.C20LeanMark"])
     # ids spelled as `extensions list` spells them (tie to the generated table)
     try:
         sys.path.insert(0, os.path.join(vlib.ROOT, "tools", "translate"))
